@@ -381,3 +381,24 @@ func (p *Prog) FileOf(pos token.Pos) (*ast.File, *packages.Package) {
 	}
 	return nil, nil
 }
+
+// ImportClosure returns the set of package paths transitively imported by the
+// given repository packages (paths relative to the module or absolute),
+// including themselves.
+func (p *Prog) ImportClosure(paths ...string) map[string]bool {
+	out := map[string]bool{}
+	var visit func(pk *packages.Package)
+	visit = func(pk *packages.Package) {
+		if pk == nil || out[pk.PkgPath] {
+			return
+		}
+		out[pk.PkgPath] = true
+		for _, imp := range pk.Imports {
+			visit(imp)
+		}
+	}
+	for _, q := range paths {
+		visit(p.Pkg(q))
+	}
+	return out
+}
